@@ -57,3 +57,16 @@ Theorem c15_rearm_always_loses_a_request : exists s,
   poller_steps true false s = [].
 Proof. exact rearm_always_loses_a_request. Qed.
 Print Assumptions c15_rearm_always_loses_a_request.
+
+(* ---- the schedules forced on the real resolver (yield hooks, Model/ResolverConcRun.v) are runs of that LTS ---- *)
+From GB Require Import Model.ResolverConcRun Proofs.ResolverSchedProofs.
+Theorem c15_forced_schedules_are_runs : forall l s s', run_acts l s = Some s' -> Reach false false s s'.
+Proof. exact forced_schedules_are_runs. Qed.
+Print Assumptions c15_forced_schedules_are_runs.
+
+(* so in every forced schedule too: a returned request after whose beginning no poll has started keeps the poller's
+   resolve-now move enabled *)
+Theorem c15_forced_not_lost : forall n c0 l s i k, run_acts l (init n c0) = Some s ->
+  nth_error (callers s) i = Some (CReturned k) -> polls s = k -> pc s = PSelect -> closed s = true /\ p_step s <> None.
+Proof. exact forced_not_lost. Qed.
+Print Assumptions c15_forced_not_lost.
